@@ -994,7 +994,7 @@ class _History:
     """bookkeeping of one history of reads: cache warming, overwritten results, final state"""
 
     def __init__(self, obj, hist):
-        self.obj, self.hist, self.snap = obj, hist, None
+        self.obj, self.hist, self.snap, self.broken = obj, hist, None, False
         try:
             self.pd0 = bytes(obj.PixelData)
         except Exception:      # noqa  (lazy retrieval: pixel data stay in the file)
@@ -1002,7 +1002,10 @@ class _History:
 
     def before(self, i):
         if self.hist.get('warm') == i:
-            self.snap = self.obj.pixel_array.copy()
+            try:
+                self.snap = self.obj.pixel_array.copy()
+            except Exception:      # noqa  (stored frames that cannot be decoded as a whole: reported by unchanged())
+                self.broken = True
 
     def after(self, a):
         if self.hist.get('scribble') and a.flags.writeable:
@@ -1010,6 +1013,8 @@ class _History:
 
     def unchanged(self):
         import numpy as np
+        if self.broken:
+            return False
         ok = self.snap is None or np.array_equal(self.obj.pixel_array, self.snap)
         if self.pd0 is not None:
             ok = ok and bytes(self.obj.PixelData) == self.pd0
@@ -1534,7 +1539,8 @@ def _seg_hist_oracle(c, out):
         if got != want:
             return f'{what}: got {str(got)[:200]} expected {str(want)[:200]}'
     if out[-1] is not True:
-        return (f"after the reads the object differs from what it was (PixelData bytes / cached pixel_array changed) "
+        return (f"after the reads the object differs from what it was (PixelData bytes / cached pixel_array changed, or "
+                f"`.pixel_array` could not be decoded) "
                 f"[object: {hist['src']}, pixel_array cached before read {hist['warm']}]")
     return None
 
